@@ -87,6 +87,54 @@ class Coord2Cell(Family):
                 ('ret0', O['ret'] == 0)]
 
 
+class Coord2CellBorder(Coord2Cell):
+    """points exactly ON a cell edge or on the border of the extent (exact reals, so "exactly" is meaningful): the answer is -1 or a
+    cell whose closed footprint contains the point, and -1 when no cell's closed footprint does.  This is weaker than a convention for
+    edges (the statement fixes none) but excludes wrapping a point on the right / top border into another row or beyond the grid."""
+    name = 'coord2cell-border'
+
+    def instances(self, tier):
+        ncs = [1, 3, 64] if tier == 'quick' else NCOLS
+        cs = [0.025, 1.0, 30.0] if tier == 'quick' else CSZ
+        return [dict(ncols=n, csz=c, on=on) for n in ncs for c in cs for on in ('x', 'y', 'xy')]
+
+    def inputs(self, inst, S):
+        I = grid_inputs(inst, S)
+        csz = inst['csz']
+        iu = S.int('iu', -10 ** 12, 10 ** 12)
+        iv = S.int('iv', -10 ** 12, 10 ** 12)
+        fu = 0 if 'x' in inst['on'] else S.real('fu', MARGIN, 1 - MARGIN)
+        fv = 0 if 'y' in inst['on'] else S.real('fv', MARGIN, 1 - MARGIN)
+        I.update(iu=iu, iv=iv, fu=fu, fv=fv)
+        I['x'] = fadd(I['xll'], fmul(csz, fadd(lift(iu), fu)))
+        I['y'] = fadd(I['yll'], fmul(csz, fadd(lift(iv), fv)))
+        return I
+
+    def spec(self, inst, I, O):
+        ncols, nrows, iu, iv = I['ncols'], I['nrows'], I['iu'], I['iv']
+        cell = O['idxcell'][0]
+        if not z3.is_expr(iu):
+            # concrete replay: exact position of the floats that were actually passed, closed footprints
+            import math
+            u = (Fraction(I['x']) - Fraction(I['xll'])) / Fraction(I['csz'])
+            v = (Fraction(I['y']) - Fraction(I['yll'])) / Fraction(I['csz'])
+            if cell == -1:
+                slack = Fraction(1, 10 ** 7)
+                strictly_in = slack < u < ncols - slack and slack < v < nrows - slack and \
+                    min(u - math.floor(u), math.floor(u) + 1 - u, v - math.floor(v), math.floor(v) + 1 - v) > slack
+                return [('border->-1-or-touching-cell', not strictly_in), ('ret0', O['ret'] == 0)]
+            ok = 0 <= cell < nrows * ncols
+            if ok:
+                col, rowb = cell % ncols, nrows - 1 - cell // ncols
+                ok = col <= u <= col + 1 and rowb <= v <= rowb + 1
+            return [('border->-1-or-touching-cell', ok), ('ret0', O['ret'] == 0)]
+        cands = [(iu - a, iv - b) for a in ((0, 1) if 'x' in inst['on'] else (0,)) for b in ((0, 1) if 'y' in inst['on'] else (0,))]
+        alts = [cell == -1]
+        for (cu, cv) in cands:
+            alts.append(b_and(cu >= 0, cu < ncols, cv >= 0, cv < nrows, cell == (nrows - 1 - cv) * ncols + cu))
+        return [('border->-1-or-touching-cell', b_or(*alts)), ('ret0', O['ret'] == 0)]
+
+
 class Cell2Coord(Family):
     prop = 'C07'
     name = 'cell2coord'
@@ -365,7 +413,7 @@ def contracts_part(tier, seed, workdir):
     return run_contracts('C07', 'harness.C07', CONTRACTS, tier)
 
 
-FAMILIES = [Coord2Cell(), Cell2Coord(), RoundTrip(), Cell2RowCol(), Neighbours()]
+FAMILIES = [Coord2Cell(), Coord2CellBorder(), Cell2Coord(), RoundTrip(), Cell2RowCol(), Neighbours()]
 PARTS = [contracts_part]
 
 META = dict(
@@ -374,7 +422,7 @@ META = dict(
                 'standard rounding-error model (XReps: every operation result multiplied by (1+d), |d|<=2^-53)',
     bounds=['ncols in {1,2,3,5,7,64,1000}, nrows symbolic in [1,1e6], cell size from nine magnitudes 1e-4..1e4 (symbolic in [1e-4,1e4] for the '
             'round trip), origins up to 1e4 cell sizes from zero, points up to 1e12 cells away from the corner and at least 1e-9 cell sizes from '
-            'cell edges, cell numbers over +-2^62'],
+            'cell edges (coord2cell) or exactly on a cell edge / extent border (coord2cell-border: -1 or a touching cell), cell numbers over +-2^62'],
     outside=['ncols outside the listed values', 'xvalues/yvalues/xlim/ylim are numpy one-liners over cell2coord: only validated by a recorded-call scenario over a list of geometries'],
     assumptions=['sitofp of cell indices is exact (|index| < 2^53)', 'XR: exact reals; XReps sound for normal-range doubles'],
     stubs=[],
